@@ -136,6 +136,17 @@ def check_source(res, s, names, py_logic, check_importer=True):
         return res.skip("python-rejects")
     except (ValueError, MemoryError, RecursionError):
         return res.skip("python-rejects")
+    # the same characters without any blanks are another string ('not e' / 'note',
+    # 'x or y' / 'xory'): parsing it first must not influence what this one means
+    glued = "".join(s.split())
+    if glued != s:
+        res.label("glued-twin-parsed-first")
+        try:
+            parse(glued)
+        except RecursionError:
+            raise
+        except Exception:
+            pass
     try:
         tree = parse(s)
     except ParseError as exc:
